@@ -375,28 +375,87 @@ func thoroughBudget() int {
 	return 300
 }
 
+// txCell is one cell of the transaction unit: a (type, payload version) of the
+// grid, and for CRC proposals additionally one codec branch.
+type txCell struct {
+	gen.TypeVersion
+	proposal *payload.CRCProposalType
+}
+
+func txCells() []txCell {
+	var cells []txCell
+	for _, c := range gen.Grid() {
+		cells = append(cells, txCell{TypeVersion: c})
+		if c.Type == ctypes.CRCProposal {
+			for _, pt := range []payload.CRCProposalType{payload.ChangeProposalOwner, payload.CloseProposal,
+				payload.SecretaryGeneral, payload.MainChainUpgradeCode, payload.DIDUpgradeCode, payload.ETHUpgradeCode, payload.ReserveCustomID,
+				payload.ReceiveCustomID, payload.ChangeCustomIDFee, payload.RegisterSideChain, payload.ELIP} {
+				pt := pt
+				cells = append(cells, txCell{TypeVersion: c, proposal: &pt})
+			}
+		}
+	}
+	return cells
+}
+
+// buildCellTx draws a transaction of the cell: 85% the defined version, 10% an
+// undefined payload version, 5% version 0 with any type (outside the domain
+// for types >= 9: counted, not judged).
+func buildCellTx(t *rapid.T, cell txCell, budget int) interfaces.Transaction {
+	f := gen.NewFiller(t, nil)
+	f.Budget = budget
+	if cell.proposal != nil {
+		f.Hook = func(_ *gen.Filler, typeName, field string, v reflect.Value) bool {
+			if typeName == "CRCProposal" && field == "ProposalType" {
+				v.SetUint(uint64(*cell.proposal))
+				return true
+			}
+			return false
+		}
+	}
+	pv := cell.Version
+	tv := ctypes.TransactionVersion(9)
+	if cell.Type <= ctypes.TransferCrossChainAsset {
+		tv = rapid.SampledFrom([]ctypes.TransactionVersion{0, 9, 0, 9, 10, 0xff}).Draw(t, "txVersion")
+	} else {
+		tv = rapid.SampledFrom([]ctypes.TransactionVersion{9, 9, 9, 10, 0x80, 0xff}).Draw(t, "txVersion")
+	}
+	switch k := gen.UniformIndex(t, 20, "domainKind"); {
+	case k == 0:
+		tv = 0
+	case k <= 2:
+		spec := gen.SpecOf(cell.Type)
+		max := spec.Versions[len(spec.Versions)-1]
+		pv = rapid.SampledFrom([]byte{max + 1, max + 2, 0x7f, 0xff}).Draw(t, "undefVer")
+	}
+	opts := &gen.TxOpts{Budget: budget}
+	switch gen.UniformIndex(t, 96, "manyKind") {
+	case 0:
+		// list counts across the one-byte varint limit (0xfd): rapid's ranges
+		// favour their bounds, so ~260 elements are drawn often enough
+		opts.MaxAttrs, opts.MaxInputs, opts.MaxOutputs, opts.MaxPrograms = 260, 260, 260, 260
+		opts.OutputTypes = []ctypes.OutputType{ctypes.OTNone}
+		vk.Class("tx-many-elements")
+	case 1:
+		opts.MaxOutputs = 2
+		f.MaxTopElems = 260
+		vk.Class("payload-many-elements")
+	}
+	return f.BuildTx(tv, cell.Type, pv, opts)
+}
+
 func TestTxRoundTrip(t *testing.T) {
 	grid := gen.Grid()
+	cells := txCells()
 	n := 0
 	rapid.Check(t, func(t *rapid.T) {
 		n++
 		// cells uniformly, so that no (type, version) stays empty
-		cell := rapid.SampledFrom(grid).Draw(t, "cell")
-		countCell(cell)
-		o := gen.TxOpts{Types: []ctypes.TxType{cell.Type}, Budget: thoroughBudget()}
-		if rapid.IntRange(0, 11).Draw(t, "undef") == 0 {
-			o.UndefinedVersions = true
-		} else {
-			v := cell.Version
-			o.PayloadVersion = &v
-		}
-		if rapid.IntRange(0, 30).Draw(t, "outside") == 0 {
-			v0 := ctypes.TransactionVersion(0)
-			o.TxVersion = &v0
-		}
-		checkTx(t, gen.GenTx(t, o), "tx")
+		cell := cells[gen.UniformIndex(t, len(cells), "cell")]
+		countCell(cell.TypeVersion)
+		checkTx(t, buildCellTx(t, cell, thoroughBudget()), "tx")
 	})
-	if n >= 40*len(grid) {
+	if n >= 40*len(cells) {
 		var empty []string
 		for _, c := range grid {
 			if cellSeen[fmt.Sprintf("%s/pv%d", c.Name, c.Version)] == 0 {
@@ -412,18 +471,34 @@ func TestTxRoundTrip(t *testing.T) {
 // TestGrid: exhaustive (type, version) grid, -rapid.checks fills per cell
 // (thorough tier; cells are partitioned over shards).
 func TestGrid(t *testing.T) {
-	grid := gen.Grid()
+	cells := txCells()
 	shard, nshards := vk.Shard()
-	for i, cell := range grid {
+	for i, cell := range cells {
 		if i%nshards != shard {
 			continue
 		}
 		cell := cell
-		t.Run(fmt.Sprintf("%s-pv%d", cell.Name, cell.Version), func(t *testing.T) {
+		name := fmt.Sprintf("%s-pv%d", cell.Name, cell.Version)
+		if cell.proposal != nil {
+			name += fmt.Sprintf("-pt%04x", uint16(*cell.proposal))
+		}
+		t.Run(name, func(t *testing.T) {
 			rapid.Check(t, func(t *rapid.T) {
-				v := cell.Version
-				o := gen.TxOpts{Types: []ctypes.TxType{cell.Type}, PayloadVersion: &v, Budget: 300}
-				checkTx(t, gen.GenTx(t, o), "grid")
+				f := gen.NewFiller(t, nil)
+				if cell.proposal != nil {
+					f.Hook = func(_ *gen.Filler, typeName, field string, v reflect.Value) bool {
+						if typeName == "CRCProposal" && field == "ProposalType" {
+							v.SetUint(uint64(*cell.proposal))
+							return true
+						}
+						return false
+					}
+				}
+				tv := ctypes.TransactionVersion(9)
+				if cell.Type <= ctypes.TransferCrossChainAsset && rapid.Bool().Draw(t, "txv0") {
+					tv = 0
+				}
+				checkTx(t, f.BuildTx(tv, cell.Type, cell.Version, &gen.TxOpts{Budget: 300}), "grid")
 			})
 		})
 	}
@@ -740,7 +815,7 @@ func TestPartsAlone(t *testing.T) {
 		kind := rapid.IntRange(0, 9).Draw(t, "partKind")
 		switch {
 		case kind <= 5: // payload alone
-			cell := rapid.SampledFrom(grid).Draw(t, "cell")
+			cell := grid[gen.UniformIndex(t, len(grid), "cell")]
 			ver := cell.Version
 			if rapid.IntRange(0, 9).Draw(t, "undef") == 0 {
 				ver = rapid.SampledFrom([]byte{ver + 1, ver + 2, 0x7f, 0xff}).Draw(t, "undefVer")
